@@ -41,6 +41,10 @@ type HostSpec struct {
 type BackendSpec struct {
 	Eps  []int `json:"eps"`
 	Mark int   `json:"mark,omitempty"`
+	// dynamic scaling (dynamic-scaling, slots-min-free, backend-server-slots-increment)
+	Dyn     bool `json:"dyn,omitempty"`
+	MinFree int  `json:"min_free,omitempty"`
+	Block   int  `json:"block,omitempty"`
 }
 
 // TCPSpec is a tcp service "host:port".
@@ -160,7 +164,21 @@ func (s State) refs() map[string][]string {
 func (s State) BackendContent(b string) string {
 	bs := s.Backends[b]
 	eps := append([]int(nil), bs.Eps...)
+	if bs.Dyn {
+		return fmt.Sprintf("%s eps=%v mark=%d refs=%v dyn=%d/%d", b, eps, bs.Mark, s.refs()[b], bs.MinFree, bs.Block)
+	}
 	return fmt.Sprintf("%s eps=%v mark=%d refs=%v", b, eps, bs.Mark, s.refs()[b])
+}
+
+// BackendMarker is the text the version marker of a backend stands for: its content, without
+// the endpoints when they can be changed through the runtime api (the marker is part of the
+// backend and a dynamic update needs everything but the endpoints to be unchanged).
+func (s State) BackendMarker(b string) string {
+	bs := s.Backends[b]
+	if bs.Dyn {
+		return fmt.Sprintf("%s mark=%d refs=%v dyn=%d/%d", b, bs.Mark, s.refs()[b], bs.MinFree, bs.Block)
+	}
+	return s.BackendContent(b)
 }
 
 // BackendPaths lists the (host, path) keys of the http paths pointing to b, sorted.
@@ -399,7 +417,7 @@ func Plan(prev State, st Step, in *Interner) []Op {
 				}
 			}
 		}
-		ops = append(ops, Op{Kind: "bacq", Name: b, Ver: in.ID("B " + cur.BackendContent(b)), ACL: cur.BackendACL(b), Paths: cur.BackendPaths(b), RSSL: rssl})
+		ops = append(ops, Op{Kind: "bacq", Name: b, Ver: in.ID("B " + cur.BackendMarker(b)), ACL: cur.BackendACL(b), Paths: cur.BackendPaths(b), RSSL: rssl})
 	}
 	for _, h := range sortedKeys(hostsToAdd) {
 		var hp [][2]string
@@ -478,6 +496,7 @@ type Env struct {
 // Options of NewEnv.
 type Options struct {
 	Shards       int
+	AdminSocket  string // admin socket of the (fake) haproxy: dynamic updates go there
 	Keep         bool   // do not wipe the directories: a restarted controller over what the previous one left
 	InlineReload bool   // no reload queue: HAProxyUpdate itself reloads (--reload-interval=0, the default)
 	MasterSocket string // external haproxy reached through this master socket
@@ -517,6 +536,7 @@ func NewEnv(base, name string, o Options) *Env {
 		LocalFSPrefix:  "",
 		BackendShards:  o.Shards,
 		Metrics:        e.Metrics,
+		AdminSocket:    o.AdminSocket,
 	}
 	if o.MasterSocket != "" {
 		opts.IsExternal = true
@@ -557,6 +577,10 @@ func configGlobal(g *hatypes.Global, ver int) {
 	g.UseHTX = true
 }
 
+// DefaultCrtFile is the default certificate of the frontend (a file that exists is only needed
+// when something loads the configuration, as lib/fakehaproxy does).
+var DefaultCrtFile = "/ssl/default.pem"
+
 // Apply runs the calls of one step on the real Config.
 func (e *Env) Apply(cur State, ops []Op) {
 	cfg := e.Inst.Config()
@@ -564,7 +588,7 @@ func (e *Env) Apply(cur State, ops []Op) {
 		switch op.Kind {
 		case "clear":
 			cfg.Clear()
-			cfg.Frontend().DefaultCrtFile = "/ssl/default.pem"
+			cfg.Frontend().DefaultCrtFile = DefaultCrtFile
 			cfg.Frontend().DefaultCrtHash = "0"
 		case "global":
 			configGlobal(cfg.Global(), op.Ver)
@@ -636,6 +660,11 @@ func (e *Env) acquireBackend(cur State, name string, ver int) {
 	bs := cur.Backends[name]
 	b := cfg.Backends().AcquireBackend("ns", name, "8080")
 	b.CustomConfig = []string{fmt.Sprintf("# ver %d", ver)}
+	if bs.Dyn {
+		b.Dynamic.DynUpdate = true
+		b.Dynamic.MinFreeSlots = bs.MinFree
+		b.Dynamic.BlockSize = bs.Block
+	}
 	for _, ep := range bs.Eps {
 		b.AcquireEndpoint(fmt.Sprintf("10.0.%d.%d", ep/250, ep%250+1), 8080, "")
 	}
@@ -668,6 +697,10 @@ type BackRef struct {
 	Name string
 	Ver  int    // from the `# ver N` marker, -1 when absent
 	Body string // canonical text of the section (server lines sorted, slot names erased)
+	// BodyNS is Body without the server lines, Servers the server lines as written
+	// ("name ip:port [disabled] weight N"), sorted
+	BodyNS  string
+	Servers []string
 }
 
 // Disk is the projection of everything `haproxy -f <cfgdir>` would load.
@@ -752,6 +785,13 @@ func (e *Env) ReadDisk() Disk {
 					}
 				}
 				sort.Strings(servers)
+				cur.BodyNS = strings.Join(others, "\n")
+				for _, l := range body {
+					if reServer.MatchString(l) {
+						cur.Servers = append(cur.Servers, serverKey(l))
+					}
+				}
+				sort.Strings(cur.Servers)
 				cur.Body = strings.Join(append(others, servers...), "\n")
 				fo.Backends = append(fo.Backends, *cur)
 				cur = nil
@@ -864,6 +904,58 @@ func (e *Env) ReadDisk() Disk {
 		sort.Strings(d.TCPMaps[k])
 	}
 	return d
+}
+
+// serverKey keeps of a server line what the model decides: name, address, disabled, weight.
+func serverKey(line string) string {
+	f := strings.Fields(line)
+	k := f[1] + " " + f[2]
+	for i := 3; i < len(f); i++ {
+		if f[i] == "disabled" {
+			k += " disabled"
+		}
+		if f[i] == "weight" && i+1 < len(f) {
+			k += " weight " + f[i+1]
+		}
+	}
+	return k
+}
+
+// ModelServers lists, per backend of the in-memory model, the servers it holds (used and
+// empty slots), in the form of serverKey, sorted.
+func (e *Env) ModelServers() map[string][]string {
+	out := map[string][]string{}
+	for id, b := range e.Inst.Config().Backends().Items() {
+		name := strings.TrimSuffix(strings.TrimPrefix(id, "ns_"), "_8080")
+		var l []string
+		for _, ep := range b.Endpoints {
+			k := fmt.Sprintf("%s %s:%d", ep.Name, ep.IP, ep.Port)
+			if !ep.Enabled {
+				k += " disabled"
+			}
+			k += fmt.Sprintf(" weight %d", ep.Weight)
+			l = append(l, k)
+		}
+		sort.Strings(l)
+		out[name] = l
+	}
+	return out
+}
+
+// CanonNS is Canon without the server lines (compared apart, against the in-memory model).
+func (d Disk) CanonNS() string {
+	c := d
+	c.Files = nil
+	for _, f := range d.Files {
+		g := f
+		g.Backends = nil
+		for _, b := range f.Backends {
+			b.Body = b.BodyNS
+			g.Backends = append(g.Backends, b)
+		}
+		c.Files = append(c.Files, g)
+	}
+	return c.Canon()
 }
 
 // Canon is the canonical text of everything a loaded configuration means (used to
